@@ -36,7 +36,7 @@ FLOORS = {'aggregate_evaluations': 3000, 'two_dimensional': 200,
           'derived_models': 20, 'float_lookalike_text_cases': 50,
           'placed_rectangle_cases': 500, 'long_zero_runs': 6,
           'switched_failure_evaluations': 50,
-          'single_cell_split_cases': 100}
+          'single_cell_split_cases': 100, 'exact_integer_sums': 30}
 ANCHOR_FUNCS = {
     'xlcalculator/xlfunctions/math.py': ['SUM', 'SUMPRODUCT'],
     'xlcalculator/xlfunctions/statistics.py': ['AVERAGE', 'MIN', 'MAX',
@@ -501,12 +501,36 @@ def run(ctx):
                             'nt': (f, 'single-split', label, rows, cols)},
                       got, want)
 
+    # ---- whole numbers: a sum of integers beyond 2^53 is exact (the cells hold
+    # exact integers, and so does their sum) ---------------------------------
+    if ctx.shard in (8, 9) or thorough:
+        for base in (2 ** 53, 10 ** 17, 2 ** 60):
+            cells_ = {'A1': base, 'A2': 1, 'A3': 2, 'A4': 3, 'B1': base}
+            probes = {'=SUM(A1:A2)-B1': 1.0, '=SUM(A1:A4)-SUM(A1:A3)': 3.0,
+                      '=SUM(A2:A4,A1)-B1': 6.0, '=SUM(A1:A4)-B1-SUM(A2:A4)': 0.0,
+                      '=SUM(A1,A2)=B1': False, '=SUM(A4,A1)-SUM(A1,A3)': 1.0}
+            outs = subject.eval_batch(list(probes), cells_)
+            for (text, want), got in zip(probes.items(), outs):
+                ctx.event('aggregate_evaluations')
+                ctx.event('exact_integer_sums')
+                ctx.case(('exact-int-sum', text, base))
+                wn = ('bool', want) if isinstance(want, bool) else \
+                    ('num', want)
+                if got != ('value', wn):
+                    ctx.fail(f'{text} over {cells_}: observed {got}, expected '
+                             f'{want} (integers add exactly)',
+                             {'formula': text, 'cells': cells_,
+                              'observed': got, 'reference': want},
+                             monitor='reference-fold',
+                             group='exact-int-sum:' + text[:8])
+
     # ---- where a rectangle sits: blocks that start at other columns than A
     # (E:H, F:I, G:H, M:P, W:Z ...), on the formula's own sheet and on another
     # one; a range on ANOTHER sheet followed by unqualified references (they
     # mean the formula's own sheet); SUMPRODUCT of rectangles that start at
     # different columns (multiplies cell by cell in reading order) -----------
-    starts = [1, 5, 6, 7, 13, 15, 21, 23, 30, 31]
+    # (column ZZ holds the probe formulas: three-letter columns start at AAA)
+    starts = [1, 5, 6, 7, 13, 15, 21, 23, 30, 31, 703, 704, 16379]
     for it_ in range((600 if thorough else 48) // ctx.nshards):
         cols, rows = rng.randint(2, 4), rng.randint(1, 3)
         cells = {}
